@@ -1,6 +1,7 @@
 package main
 
 import (
+	"go/ast"
 	"regexp"
 	"fmt"
 	"go/constant"
@@ -42,6 +43,7 @@ type Addr struct {
 }
 
 type World struct {
+	dbgNames map[*ssa.Function]map[string]ssa.Value
 	knownObl []knownFinding // open findings (known-findings.txt): their clauses are not assumed at call sites
 	repo    string
 	prog    *ssa.Program
@@ -84,7 +86,7 @@ func loadWorld(repo string, patterns []string) (*World, error) {
 	if nerr > 0 {
 		return nil, fmt.Errorf("%d package load errors", nerr)
 	}
-	prog, _ := ssautil.AllPackages(pkgs, ssa.InstantiateGenerics)
+	prog, _ := ssautil.AllPackages(pkgs, ssa.InstantiateGenerics|ssa.GlobalDebug) // GlobalDebug: DebugRef instructions name source-level locals for loop invariants
 	prog.Build()
 	w := &World{repo: repo, prog: prog, pkgs: map[string]*ssa.Package{}, tpkgs: map[string]*types.Package{}, short: map[string]map[string]string{},
 		classes: map[string]string{}, classImm: map[string]bool{}, ufs: map[string]string{}, typeIDs: map[string]int{}, funcs: map[string]*ssa.Function{}, specFuns: map[string]*PredDef{}, tableVals: map[string]int64{}}
@@ -671,4 +673,38 @@ func (w *World) prelude() string {
 		}
 	}
 	return b.String()
+}
+
+// debugNames maps the source-level names of a function's locals to the SSA value they denote, for locals that
+// denote one value throughout (assigned once, not address-taken). Used to resolve names in loop invariants.
+func (w *World) debugNames(fn *ssa.Function) map[string]ssa.Value {
+	if w.dbgNames == nil {
+		w.dbgNames = map[*ssa.Function]map[string]ssa.Value{}
+	}
+	if m, ok := w.dbgNames[fn]; ok {
+		return m
+	}
+	m := map[string]ssa.Value{}
+	amb := map[string]bool{}
+	for _, b := range fn.Blocks {
+		for _, ins := range b.Instrs {
+			d, ok := ins.(*ssa.DebugRef)
+			if !ok || d.IsAddr {
+				continue
+			}
+			id, ok := d.Expr.(*ast.Ident)
+			if !ok {
+				continue
+			}
+			if old, ok := m[id.Name]; ok && old != d.X {
+				amb[id.Name] = true
+			}
+			m[id.Name] = d.X
+		}
+	}
+	for n := range amb {
+		delete(m, n)
+	}
+	w.dbgNames[fn] = m
+	return m
 }
